@@ -140,74 +140,56 @@ example (a b : Filter) : (([(.prop, a), (.coreReg, b)] : Policies).map (·.1)).N
 
 /-! ### propagation -/
 
-/-- **No beacon is propagated over an interface where it would create an AS loop**: when
-`shouldIgnore` lets a beacon pass, the path it is sent with — its entries, then the local AS,
-then the neighbour behind the egress interface — visits no AS twice.  (`next ≠ loc`: a
-neighbour is not the local AS; no wildcard `0-0` among the ASes.)  This is the clause the revert
-of repair 2734f5b breaks. -/
+/-- The propagation clause at full strength: whenever `shouldIgnore` lets a beacon pass on an
+interface, the path the beacon is sent with — its entries, then the local AS (appended by the
+extender), then the neighbour behind the egress interface — has no AS loop, and no ISD loop
+(as `filterIsdLoop` defines it, DESIGN §7a) unless ISD loops are allowed. -/
+def NeverPropagateLoop : Prop :=
+  ∀ (loc next : IA) (allow : Bool) (hops : List IA), next ≠ (0, 0) →
+    shouldIgnore loc allow hops next = false →
+      asLoop (hops ++ [loc] ++ [next]) = false ∧
+      (allow = false → isdLoop (hops ++ [loc] ++ [next]) = false)
+
+theorem never_propagate_loop : NeverPropagateLoop := by
+  intro loc next allow hops hnz h
+  unfold shouldIgnore filterLoop at h
+  rw [if_neg hnz] at h
+  exact (hasLoop_false_iff _ _).1 h
+
+/-- **No beacon is propagated over an interface where it would create an AS loop**, in plain
+terms: the path sent visits no AS twice — in particular the beacon does not already contain the
+local AS (the loop repaired by 2734f5b) nor the neighbour.  (No wildcard `0-0` among the ASes.) -/
 theorem never_propagate_as_loop (loc next : IA) (allow : Bool) (hops : List IA)
-    (hnl : next ≠ loc) (hz : (0, 0) ∉ hops) (hnz : next ≠ (0, 0))
+    (hz : (0, 0) ∉ hops) (hlz : loc ≠ (0, 0)) (hnz : next ≠ (0, 0))
     (h : shouldIgnore loc allow hops next = false) :
-    (hops ++ [loc] ++ [next]).Nodup := by
-  unfold shouldIgnore at h
-  by_cases hl : hops.any (fun ia => ia == loc) = true
-  · rw [if_pos hl] at h; cases h
-  · rw [if_neg hl] at h
-    unfold filterLoop at h
-    rw [if_neg hnz] at h
-    have has := ((hasLoop_false_iff _ _).1 h).1
-    have hz' : (0, 0) ∉ hops ++ [next] := by
-      simp only [List.mem_append, List.mem_singleton, not_or]
-      exact ⟨hz, fun e => hnz e.symm⟩
-    have hnd := (asLoop_false_iff_nodup _ hz').1 has
-    have hloc : loc ∉ hops := by
-      intro hm
-      apply hl
-      simp only [List.any_eq_true, beq_iff_eq]
-      exact ⟨loc, hm, rfl⟩
+    (hops ++ [loc] ++ [next]).Nodup ∧ loc ∉ hops ∧ next ∉ hops ∧ next ≠ loc := by
+  have has := (never_propagate_loop loc next allow hops hnz h).1
+  have hz' : (0, 0) ∉ hops ++ [loc] ++ [next] := by
+    simp only [List.mem_append, List.mem_singleton, not_or]
+    exact ⟨⟨hz, fun e => hlz e.symm⟩, fun e => hnz e.symm⟩
+  have hnd := (asLoop_false_iff_nodup _ hz').1 has
+  refine ⟨hnd, ?_, ?_, ?_⟩
+  · intro hm
+    rw [List.append_assoc, List.nodup_append] at hnd
+    exact hnd.2.2 loc hm loc (by simp) rfl
+  · intro hm
+    rw [List.append_assoc, List.nodup_append] at hnd
+    exact hnd.2.2 next hm next (by simp) rfl
+  · intro e
     rw [List.nodup_append] at hnd
-    obtain ⟨hn1, _, hdis⟩ := hnd
-    rw [List.append_assoc, List.nodup_append]
-    refine ⟨hn1, ?_, ?_⟩
-    · simp only [List.cons_append, List.nil_append, List.nodup_cons, List.mem_singleton,
-        List.not_mem_nil, not_false_eq_true, List.nodup_nil, and_true]
-      exact fun e => hnl e.symm
-    · intro a ha b hb
-      simp only [List.cons_append, List.nil_append, List.mem_cons, List.not_mem_nil, or_false] at hb
-      rcases hb with rfl | rfl
-      · intro e; exact hloc (e ▸ ha)
-      · exact hdis a ha b (by simp)
+    exact hnd.2.2 loc (by simp) next (by simp) e.symm
 
-/-- The ISD clause of the statement at full strength: with ISD loops disallowed, the path a
-beacon is sent with (entries, local AS, neighbour) has no ISD loop in the sense of
-`filterIsdLoop`. -/
-def NeverPropagateIsdLoop : Prop :=
-  ∀ (loc next : IA) (hops : List IA), next ≠ loc → next ≠ (0, 0) →
-    shouldIgnore loc false hops next = false → isdLoop (hops ++ [loc] ++ [next]) = false
+/-- **… or an ISD loop when those are disallowed** (the clause repaired after this check found
+`1-100 → 2-100 → 1-101` being propagated): the ISD test sees the local AS. -/
+theorem never_propagate_isd_loop (loc next : IA) (hops : List IA) (hnz : next ≠ (0, 0))
+    (h : shouldIgnore loc false hops next = false) :
+    isdLoop (hops ++ [loc] ++ [next]) = false :=
+  (never_propagate_loop loc next false hops hnz h).2 rfl
 
-/-- What the code does establish: the hop list *without the local AS* has no ISD loop.
-PARTIAL: `Propagator.shouldIgnore` hands `FilterLoop` the entries and the neighbour only; the
-local AS, which the extender is about to append, is missing from the ISD test (the AS test was
-completed by repair 2734f5b).  The full statement `NeverPropagateIsdLoop` is false for the code
-as it is — see `isd_loop_via_local_isd`. -/
-theorem never_propagate_isd_loop_partial (loc next : IA) (hops : List IA) (hnz : next ≠ (0, 0))
-    (h : shouldIgnore loc false hops next = false) : isdLoop (hops ++ [next]) = false := by
-  unfold shouldIgnore at h
-  by_cases hl : hops.any (fun ia => ia == loc) = true
-  · rw [if_pos hl] at h; cases h
-  · rw [if_neg hl] at h
-    unfold filterLoop at h
-    rw [if_neg hnz] at h
-    exact ((hasLoop_false_iff _ _).1 h).2 rfl
-
-/-- Kernel-checked witness that the modelled decision violates the ISD clause: the AS `2-100`
-holds the beacon `[1-100]` and propagates it to its neighbour `1-101` although ISD loops are
-disallowed; the path sent is `1-100 → 2-100 → 1-101`. -/
-theorem isd_loop_via_local_isd : ¬ NeverPropagateIsdLoop := by
-  intro h
-  have := h (2, 100) (1, 101) [(1, 100)] (by decide) (by decide) (by decide)
-  revert this
-  decide
+/-- the input on which the unrepaired code propagated into an ISD loop is now ignored -/
+example : shouldIgnore (2, 100) false [(1, 100)] (1, 101) = true := by decide
+/-- and a beacon that already contains the local AS is ignored whatever the switch -/
+example : shouldIgnore (1, 120) true [(1, 100), (1, 120), (1, 110)] (1, 130) = true := by decide
 
 /-! ### regenerated facts -/
 
@@ -230,6 +212,7 @@ example :
       = .stored [.prop, .upReg] := by decide
 
 example : shouldIgnore (1, 120) false [(1, 100), (1, 110)] (1, 130) = false := by decide
-example : shouldIgnore (1, 120) false [(1, 100), (1, 120), (1, 110)] (1, 130) = true := by decide
+example : isdLoop [(1, 100), (2, 100), (1, 101)] = true ∧ isdLoop [(1, 100), (1, 101), (2, 100)] = false := by
+  decide
 
 end Scion.C25
